@@ -289,7 +289,7 @@ func c08Pass(c *core.Ctx, incEdited bool) {
 
 	emphasis := []string{"desc-shape", "header-kind", "note-shape", "pipe-blanks", "code", "status", "header-gap", "date2", "date-sep", "date-pad",
 		"account-shape", "commodity", "sign", "number", "cost", "cost-amount", "assertion", "posting-comment", "header-comment", "tx-comment-line", "comment-line-after-posting", "last-posting-comment",
-		"posting-kind", "posting-status", "blank-lines", "entry-before", "entry-between", "line-end", "indent", "amount-sep", "posting-count", "amount-present", "shared-names", "final-newline"}
+		"posting-kind", "posting-status", "blank-lines", "entry-before", "entry-between", "line-end", "indent", "amount-sep", "posting-count", "amount-present", "shared-names", "final-newline", "trailing-posting", "trailing-header"}
 	devs := gmodel.Filter(gmodel.Deviations(), emphasis...)
 
 	s := wire.New()
